@@ -117,6 +117,35 @@ impl<Ty: EdgeType + Clone + std::fmt::Debug + Send + Sync + 'static, Ix: IndexTy
     fn check(&self, s: &Self::S) -> Result<(), StepErr> {
         csr_battery(&s.g, &s.nodes, &s.edges, s.n_edges)
     }
+    fn has_check_new(&self) -> bool {
+        true
+    }
+    /// iterator protocol of the iterators Csr hands out (+ IndexMut on a clone)
+    fn check_new(&self, s: &Self::S) -> Result<(), StepErr> {
+        use petgraph::visit::{IntoEdgeReferences, IntoNodeIdentifiers, IntoNodeReferences};
+        use vh::{iter_protocol, iter_protocol_de, iter_protocol_exact};
+        let g = &s.g;
+        iter_protocol!("Csr::node_identifiers", g.node_identifiers(), |x: Ix| x.index())?;
+        iter_protocol_de!("Csr::node_references", g.node_references(), |(i, w): (Ix, &u8)| (i.index(), *w))?;
+        iter_protocol_exact!("Csr::node_references", g.node_references())?;
+        iter_protocol!("Csr::edge_references", g.edge_references(), |r: petgraph::csr::EdgeReference<'_, u8, Ty, Ix>| (r.source().index(), r.target().index(), *r.weight()))?;
+        for a in 0..s.nodes.len() {
+            iter_protocol!("Csr::edges", g.edges(Ix::new(a)), |r: petgraph::csr::EdgeReference<'_, u8, Ty, Ix>| (r.source().index(), r.target().index(), *r.weight()))?;
+            iter_protocol!("IntoNeighbors::neighbors", IntoNeighbors::neighbors(g, Ix::new(a)), |x: Ix| x.index())?;
+            let cl: Vec<(usize, u8)> = g.edges(Ix::new(a)).clone().map(|r| (r.target().index(), *r.weight())).collect();
+            if cl != g.edges(Ix::new(a)).map(|r| (r.target().index(), *r.weight())).collect::<Vec<_>>() {
+                return Err(err("Csr::edges", "a cloned iterator yields a different sequence", format!("row {}", a)));
+            }
+        }
+        let mut c = g.clone();
+        for a in 0..s.nodes.len() {
+            c[Ix::new(a)] = 9;
+            if c[Ix::new(a)] != 9 || (0..s.nodes.len()).any(|b| b != a && c[Ix::new(b)] != if b < a { 9 } else { s.nodes[b] }) {
+                return Err(err("IndexMut<NodeIndex>", "does not address exactly the node's weight", format!("node {}", a)));
+            }
+        }
+        Ok(())
+    }
     fn ops(&self, s: &Self::S) -> Vec<COp> {
         let n = s.nodes.len();
         let mut v = vec![];
@@ -302,6 +331,31 @@ impl<Ix: IndexType + Send + Sync> Machine for LM<Ix> {
     }
     fn check(&self, s: &Self::S) -> Result<(), StepErr> {
         list_battery(s)
+    }
+    fn has_check_new(&self) -> bool {
+        true
+    }
+    /// iterator protocol of the iterators adj::List hands out (+ DataMap / DataMapMut on a clone)
+    fn check_new(&self, s: &Self::S) -> Result<(), StepErr> {
+        use petgraph::data::{DataMap, DataMapMut};
+        use vh::iter_protocol;
+        let g = &s.g;
+        iter_protocol!("List::node_indices", g.node_indices(), |x: Ix| x.index())?;
+        iter_protocol!("List::edge_indices", g.edge_indices(), |e: LEdge<Ix>| format!("{:?}", e))?;
+        iter_protocol!("List::edge_references", g.edge_references(), |r: petgraph::adj::EdgeReference<'_, u8, Ix>| (r.source().index(), r.target().index(), *r.weight()))?;
+        for a in 0..s.rows.len() {
+            iter_protocol!("List neighbors", IntoNeighbors::neighbors(g, Ix::new(a)), |x: Ix| x.index())?;
+            iter_protocol!("List edges", IntoEdges::edges(g, Ix::new(a)), |r: petgraph::adj::EdgeReference<'_, u8, Ix>| (r.source().index(), r.target().index(), *r.weight()))?;
+            iter_protocol!("List::edge_indices_from", g.edge_indices_from(Ix::new(a)), |e: LEdge<Ix>| format!("{:?}", e))?;
+        }
+        let mut c = g.clone();
+        for e in g.edge_indices() {
+            let want = g.edge_weight(e).cloned();
+            if DataMap::edge_weight(g, e).cloned() != want || DataMapMut::edge_weight_mut(&mut c, e).map(|w| *w) != want {
+                return Err(err("DataMap / DataMapMut for List", "edge_weight / edge_weight_mut differ from List::edge_weight", format!("edge {:?}", e)));
+            }
+        }
+        Ok(())
     }
     fn ops(&self, s: &Self::S) -> Vec<LOp> {
         let n = s.rows.len();
